@@ -9,10 +9,17 @@ theorem iNetX_eq_sound (a b : State) (h : eq a b = true) : (pack a).2 = (pack b)
   obtain ⟨⟨⟨⟨⟨⟨h1, h2⟩, h3⟩, h4⟩, h5⟩, h6⟩, h7⟩ := h
   simp only [pack, h1, h2, h3, h4, h5, h6, h7]
 
+/-- non-vacuity: equal although the (recomputed) `packetlen` differs -/
+example : eq { fresh with streamid := 0xDC, payload := [5, 0] } { fresh with streamid := 0xDC, payload := [5, 0], packetlen := 77 } = true := by
+  decide
+
 /-- an object decoded (into an object in any prior state) from a's encoding compares equal to a -/
 theorem iNetX_eq_decode (a t : State) (h : C01.iNetX_WF a) :
     ∃ b, (pack a).2 = .ok b ∧ (unpack t b).2 = .ok () ∧ eq a (unpack t b).1 = true := by
   obtain ⟨b, hp, hu, hs, _⟩ := C01.iNetX_roundtrip a t h
   exact ⟨b, hp, hu, by rw [hs]; simp [eq]⟩
+
+example : C01.iNetX_WF { fresh with streamid := 0xDC, payload := [5, 0] } := by
+  simp [C01.iNetX_WF, fresh, iNetX_DEF_CONTROL_WORD]
 
 end Acra.Props.C14
